@@ -176,12 +176,12 @@ fn read_sqe(ring: &Ring, idx: u32) -> Sqe {
         } & (ring.sq_entries - 1);
     }
     let mut raw = [0u8; 64];
+    // NOTE: under Miri the trailing padding of the entry (bytes 56..64) is
+    // uninitialised after a10 assigned a union field; it must be zero for the
+    // kernel and a10 zeroes the whole entry first, so it is not copied there.
+    let n = if cfg!(miri) { 56 } else { SQE_SIZE };
     unsafe {
-        std::ptr::copy_nonoverlapping(
-            ring.sqes.ptr.add(slot as usize * SQE_SIZE),
-            raw.as_mut_ptr(),
-            SQE_SIZE,
-        );
+        std::ptr::copy_nonoverlapping(ring.sqes.ptr.add(slot as usize * SQE_SIZE), raw.as_mut_ptr(), n);
     }
     Sqe(raw)
 }
@@ -204,6 +204,13 @@ pub fn consume(s: &mut Simk, fd: i32, max: u32) -> u32 {
                 "submission queue tail {tail:#x} is {pending} entries ahead of the kernel's head {head:#x}, queue has {entries} entries: unconsumed slots were overwritten"
             ),
         );
+        // Consuming would submit the same entries twice; the rest of the
+        // execution is meaningless.
+        s.broken = true;
+        crate::sched::ABORT.store(true, Ordering::SeqCst);
+    }
+    if s.broken {
+        return 0;
     }
     let mut n = pending.min(max).min(entries);
     if s.knobs.consume_limit > 0 {
